@@ -48,7 +48,6 @@ def inc_to_grid(G, xy=None, name="verif"):
     if xy is not None:
         a = np.asarray(xy, dtype=float).T
         nodes[: a.shape[0], :] = a
-    fi = [f for f, ns in enumerate(G["fn"]) for _ in ns]
     ni = [n for ns in G["fn"] for n in ns]
     indptr = np.cumsum([0] + [len(ns) for ns in G["fn"]])
     face_nodes = sps.csc_matrix((np.ones(len(ni), dtype=bool), np.array(ni, dtype=int), indptr), shape=(nn, nf))
@@ -57,7 +56,6 @@ def inc_to_grid(G, xy=None, name="verif"):
     v = [p[1] for ps in G["cf"] for p in ps]
     cell_faces = sps.coo_matrix((np.array(v, dtype=int), (np.array(r, dtype=int), np.array(c, dtype=int))),
                                 shape=(nf, nc)).tocsc()
-    del fi
     return pp.Grid(G["dim"], nodes, face_nodes, cell_faces, name)
 
 
